@@ -927,6 +927,8 @@ func (prop) Run(line string) core.Outcome {
 		return runPair(f)
 	case "site":
 		return runSite(f)
+	case "two":
+		return runTwo(f)
 	case "matchfile":
 		if len(f) != 7 && len(f) != 8 {
 			return bad()
